@@ -128,6 +128,53 @@ impl Prop for C05 {
         out.push(Case { id: format!("{};n={}", cell, i), cell, input: json!({"stmts": stmts.iter().map(sj).collect::<Vec<_>>()}) });
       }
     }
+    // (2b) definitions whose value cannot be converted to the (defined) annotated kind: the failing statement must define nothing
+    let bad_defs: [(&str, &str); 12] = [
+      ("u8-from-string", "c<u8> := \"abc\""), ("f64-from-string", "c<f64> := \"abc\""), ("mut-f64-from-atom", "~c<f64> := :A"), ("u8-from-atom", "c<u8> := :A"),
+      ("mut-i32-from-string", "~c<i32> := \"7\""), ("bool-from-string", "c<bool> := \"true\""), ("f32-from-record", "c<f32> := {a: 1}"), ("u16-from-tuple", "~c<u16> := (1, 2)"),
+      ("matrix-from-string", "c<[f64]:1,2> := \"ab\""), ("mut-matrix-from-atom", "~c<[u8]:1,2> := :A"), ("f64-from-set", "c<f64> := {1, 2}"), ("string-from-record", "c<string> := {a: 1}"),
+    ];
+    for (i, (bname, src)) in bad_defs.iter().enumerate() {
+      for pre_kind in [0usize, 1, 3] {
+        let stmts = vec![
+          Stmt { src: format!("a := {}", VKS[pre_kind].lit), targets: vec!["a".into()], expect: "ok-or-err", what: "define".into() },
+          Stmt { src: format!("~b := {}", VKS[pre_kind].lit), targets: vec!["b".into()], expect: "ok-or-err", what: "define".into() },
+          Stmt { src: src.to_string(), targets: vec!["c".into()], expect: "ok-or-err", what: format!("define-unconvertible-{}", bname) },
+          Stmt { src: "c = 3".into(), targets: vec!["c".into()], expect: "ok-or-err", what: "assign-after-define-attempt".into() },
+          Stmt { src: "v := 1".into(), targets: vec!["v".into()], expect: "ok-or-err", what: "define".into() },
+        ];
+        let cell = format!("invalid;class=define-unconvertible-{};kind={}", bname, VKS[pre_kind].name);
+        out.push(Case { id: format!("{};n={}", cell, i), cell, input: json!({"stmts": stmts.iter().map(sj).collect::<Vec<_>>()}) });
+      }
+    }
+    // (2c) user functions whose body assigns to a parameter, called with a variable of exactly the declared kind: the caller's
+    // variable is a bystander of the call statement whatever the call does
+    let fns: [(&str, &str, &str, &str); 8] = [
+      ("scalar-assign", "fset(x<f64>) = z<f64> :=\n    x = 99\n    z := x + 1.", "5", "fset"),
+      ("scalar-opassign", "finc(x<f64>) = z<f64> :=\n    x += 1\n    z := x * 2.", "5", "finc"),
+      ("u8-assign", "fset8(x<u8>) = z<u8> :=\n    x = 9<u8>\n    z := x + 1<u8>.", "5<u8>", "fset8"),
+      ("i64-opassign", "fdec(x<i64>) = z<i64> :=\n    x -= 1<i64>\n    z := x + 0<i64>.", "5<i64>", "fdec"),
+      ("matrix-ixassign", "fmix(x<[f64]:1,3>) = z<[f64]:1,3> :=\n    x[1] = 99\n    z := x + 1.", "[1 2 3]", "fmix"),
+      ("matrix-opassign", "fmop(x<[f64]:1,3>) = z<[f64]:1,3> :=\n    x += 1\n    z := x + 1.", "[1 2 3]", "fmop"),
+      ("matrix-assign", "fmas(x<[f64]:1,3>) = z<[f64]:1,3> :=\n    x = [7 8 9]\n    z := x + 1.", "[1 2 3]", "fmas"),
+      ("string-assign", "fstr(x<string>) = z<string> :=\n    x = \"yo\"\n    z := x.", "\"hi\"", "fstr"),
+    ];
+    for (i, (fname, def, lit, f)) in fns.iter().enumerate() {
+      for (m, callform) in [("", "r := $(a)"), ("~", "r := $(a)"), ("", "$(a)"), ("~", "$(a)")] {
+        let call = callform.replace('$', f);
+        let tg: Vec<String> = if call.starts_with("r :=") { vec!["r".into()] } else { vec![] };
+        let stmts = vec![
+          Stmt { src: def.to_string(), targets: vec![], expect: "ok-or-err", what: "define-function".into() },
+          Stmt { src: format!("{}a := {}", m, lit), targets: vec!["a".into()], expect: "ok-or-err", what: "define".into() },
+          Stmt { src: "b := a".into(), targets: vec!["b".into()], expect: "ok-or-err", what: "alias-ref".into() },
+          Stmt { src: call.clone(), targets: tg.clone(), expect: "ok-or-err", what: format!("call-assigning-param-{}", fname) },
+          Stmt { src: call.replace("r :=", "r2 :="), targets: if tg.is_empty() { vec![] } else { vec!["r2".into()] }, expect: "ok-or-err", what: format!("call-assigning-param-{}", fname) },
+          Stmt { src: "v := 1".into(), targets: vec!["v".into()], expect: "ok-or-err", what: "define".into() },
+        ];
+        let cell = format!("fncall;fn={};mutable={};form={}", fname, !m.is_empty(), if tg.is_empty() { "bare" } else { "define" });
+        out.push(Case { id: format!("{};n={}", cell, i), cell, input: json!({"stmts": stmts.iter().map(sj).collect::<Vec<_>>()}) });
+      }
+    }
     // (3) random sessions (no alias-creating forms: composites only from constructs that are isolation-clean by themselves)
     let n = if tier == Tier::Quick { 600 } else { 8000 };
     for i in 0..n {
